@@ -343,6 +343,7 @@ class ThreadsPart(object):
     res.counters["consumer." + workload["consumer"]] += 1
     res.counters["context-switches"] += sched.switches
     res.counters["preemptions"] += sched.preemptions
+    res.counters["sim-time-units"] += sched.steps
     res.steps = sched.work
     res.digest = digest_events(sched.events + ["%r" % (r,) for r in rec])
     if sched.switches >= 2 and calls:
